@@ -41,6 +41,7 @@ func PathSegmenter(path string, start int) (segment string, next int) {
 type PathTrie struct {
 	segmenter StringSegmenter
 	Value     string
+	IsKey     bool
 	Children  map[string]*PathTrie
 }
 
@@ -64,5 +65,8 @@ func (trie *PathTrie) Put(key string) {
 
 		child.Value = strings.ReplaceAll(part, "/", "")
 		node = child
+	}
+	if node != trie {
+		node.IsKey = true
 	}
 }
